@@ -72,10 +72,11 @@ impl RefDb {
             }
         }
         let mut new = tab.clone();
+        let mut keys: std::collections::HashSet<Vec<V>> = new.rows.iter().map(|x| tab.key_of(x)).collect();
         for r in rows {
             let r: Vec<V> = r.iter().map(norm).collect();
             let k = tab.key_of(&r);
-            if new.rows.iter().any(|x| tab.key_of(x) == k) {
+            if !keys.insert(k) {
                 return (Expect::Refused("duplicate key"), None);
             }
             new.rows.push(r);
